@@ -45,8 +45,21 @@ CHECKS['C03'] = dict(
    note='acyclic single inheritance (chainOK hypothesis); object identity is modelled by store locations, the real aliasing is observed with id() as an early-warning count only',
    technique='Lean 4 proof (fold laws; store model with freshness invariant) + differential correspondence',
    design='C03')
+CHECKS['C05'] = dict(
+   text='Model/MState.lean is a state-machine model of Model / AttackerAttachment; the correspondence runs random API histories with valid and invalid arguments on the real objects and the model, checks the abstract reference (unique ids/names, reservations, back-references with multiplicity, neighbours incl. self-links, entry points, atomic errors) directly on the real objects after every step, and compares the canonical state. Theorems (Props/C05.lean): invariant preserved by every operation and over every history, explicit ids honoured, removal leaves no trace, inner loops cannot fail half-way, neighbours = linked assets.',
+   note='removed objects serve as invalid handles unless they are value-equal to a live object (pjs compares by value); exception classes are compared as drift only; pjs guards modelled by three functions',
+   technique='Lean 4 proof (invariant over operation histories) + differential correspondence on operation histories',
+   design='C05')
+CHECKS['C07'] = dict(
+   text='Model/Serial.lean models _to_dict/_from_dict over a typed document with int/str keys (jsonRT / yamlRT file layers). The correspondence builds models by random API histories, saves them with the real code to .json/.yml/.yaml, loads the real file, compares every preserved attribute, re-saved content, the same file with permuted asset order and type-only shorthand, and compares saved document and loaded state with the Lean model.',
+   note='file layers (json, PyYAML) enter as assumed functions validated through real files; round-trip theorems over the document model are in progress (level_note updated when proved); known finding KF-C07-1 (duplicate attacker ids) is replayed on every run',
+   technique='Lean 4 model + differential correspondence through real files (round-trip theorems pending)',
+   design='C07')
 NOT_YET = {}
+PENDING = {'C05', 'C07'}   # harness exists, theorems in progress: not claimed until they check
+
 def main():
+    for k in PENDING: CHECKS.pop(k, None)
     props = [json.loads(l) for l in open(os.path.join(HERE, 'properties.jsonl'))]
     checks = []
     for p in props:
